@@ -363,40 +363,14 @@ def check_case(case, ctx):
 
     tag = proto + (":ignore" if ignore else "")
     if model.hazard:
+        # input class of the repaired defect C29-queued-data-dropped-early-end (a close is processed while the other
+        # side's close is already observed but still queued behind data); judged like every other case
         ctx.cls("close-overtakes-queued-data")
-        real = _Fail()
-        _compare(real, d, model, lay, pctx, conns, proto, has_flow, tag, nontrivial)
-        if real.n:
-            ctx.fail(HAZARD_BUCKET + tag,
-                     "events queued while a hook was pending: the second peer's EOF was observed before the first "
-                     "peer's EOF was processed, so the relay ended and dropped data queued in between; "
-                     "first difference: %s %s" % real.first)
-        return
     _compare(ctx, d, model, lay, pctx, conns, proto, has_flow, tag, nontrivial)
 
 
-HAZARD_BUCKET = "queued-data-dropped-when-both-sides-closed-during-hold:"
-
-
 def _blocked_mismatch(ctx, model, proto, msg):
-    if model.hazard:
-        ctx.fail(HAZARD_BUCKET + proto, msg)
-    else:
-        ctx.fail("blocking-command-mismatch:%s" % proto, msg)
-
-
-class _Fail:
-    def __init__(self):
-        self.n = 0
-        self.first = None
-
-    def fail(self, bucket, msg=""):
-        self.n += 1
-        if self.first is None:
-            self.first = (bucket, msg)
-
-    def cls(self, *a, **k):
-        pass
+    ctx.fail("blocking-command-mismatch:%s" % proto, msg)
 
 
 def _compare(ctx, d, model, lay, pctx, conns, proto, has_flow, tag, nontrivial):
